@@ -29,7 +29,7 @@ use std::time::{Duration, Instant};
 
 pub const MAX_STEPS: usize = 200_000;
 
-pub const RULE: &str = "one evaluation = one shuttle execution of a generated program (2-3 simulated threads x 2-6 operations: cached calls, group / conditional invalidations, statistics queries, clock steps; or get/insert/clear on a core cache; or a single-threaded registration scenario) under a seeded uniform-random or PCT(1-3) schedule at lock-acquisition granularity; distinct_nontrivial counts distinct (program shape, schedule outcome) classes in which at least one lock acquisition blocked or a context switch happened inside an operation, keyed by (functions, per-thread operation kinds, context-switch count bucket)";
+pub const RULE: &str = "one evaluation = one shuttle execution of a generated program (2-3 simulated threads x 2-6 operations: cached calls, group / conditional invalidations, statistics queries, clock steps; or get/insert/clear on a core cache shared by the threads; or a single-threaded registration scenario) under a seeded uniform-random or PCT(1-3) schedule at lock-acquisition granularity. distinct_nontrivial counts distinct (universe, per-thread operation kinds, digest of the recorded invoke/return/executed history mod 8) tuples among the executions in which two top-level calls overlapped in time (a context switch happened inside an operation) or that are core-cache / registration programs; distinct_states_or_schedules counts distinct history digests";
 
 fn arg(args: &[String], name: &str) -> Option<String> {
     args.iter().position(|a| a == name).and_then(|i| args.get(i + 1)).cloned()
